@@ -516,6 +516,15 @@ func (s *SQLiteStore) streamBatch(
 		}
 	}
 
+	// Next returning false may mean an iteration error (including a cancelled
+	// context), not the end of the batch
+	if err := rows.Err(); err != nil {
+		rows.Close() // Best effort close, iteration error takes precedence
+		*iterErr = fmt.Errorf("sqlite: iterate events: %w", err)
+		yield(nil, *iterErr)
+		return batchCount, lastPos, false
+	}
+
 	if err := rows.Close(); err != nil {
 		*iterErr = fmt.Errorf("sqlite: close rows: %w", err)
 		yield(nil, *iterErr)
